@@ -588,3 +588,195 @@ Proof.
     + intros s' [= <-]. split; [done|by rewrite Ef].
     + split; cbn; [set_solver|intros ? [= <-]; cbn; lia|set_solver].
 Qed.
+
+(* ------------------------------------------------------------------ frame for the process table *)
+Lemma procs_apply_move_ne c mv q :
+  q ≠ mv_self mv -> mv_kill mv ≠ Some q -> (forall n, q ≠ mv_self mv ++ [n]) ->
+  procs (apply_move c mv) !! q = procs c !! q.
+Proof.
+  intros H1 H2 H3. rewrite procs_apply_move, procs_after_lookup_ne by done.
+  destruct (mv_kill mv) as [s|]; cbn; [|done]. rewrite lookup_delete_ne by congruence. done.
+Qed.
+
+Lemma procs_apply_move_Some c mv r rr :
+  procs (apply_move c mv) !! r = Some rr ->
+  (r = mv_self mv /\ (exists p', e_after (mv_eff mv) = Continue p') /\ pr_next rr = eff_next1 (mv_proc mv) (mv_eff mv)) \/
+  (exists m, r = mv_self mv ++ [m] /\ (eff_next0 (mv_proc mv) (mv_eff mv) <= m < eff_next1 (mv_proc mv) (mv_eff mv))%nat /\ pr_next rr = 0%nat) \/
+  (r ≠ mv_self mv /\ mv_kill mv ≠ Some r /\ procs c !! r = Some rr).
+Proof.
+  rewrite procs_apply_move. unfold procs_after. intros H.
+  assert (Hu : r ≠ mv_self mv ->
+    (spawned (mv_self mv) (eff_next0 (mv_proc mv) (mv_eff mv)) (e_spawn (mv_eff mv)) ∪ procs (kill_proc c (mv_kill mv))) !! r = Some rr ->
+    (exists m, r = mv_self mv ++ [m] /\ (eff_next0 (mv_proc mv) (mv_eff mv) <= m < eff_next1 (mv_proc mv) (mv_eff mv))%nat /\ pr_next rr = 0%nat) \/
+    (r ≠ mv_self mv /\ mv_kill mv ≠ Some r /\ procs c !! r = Some rr)).
+  { intros Hne Hl. apply lookup_union_Some_raw in Hl as [Hl|[_ Hl]].
+    - left. apply spawned_lookup_Some in Hl as (m & -> & Hm & Hz). exists m. unfold eff_next1. auto.
+    - right. split; [done|]. destruct (mv_kill mv) as [s|]; cbn in Hl.
+      + apply lookup_delete_Some in Hl as [Hs Hl]. split; [congruence|done].
+      + done. }
+  destruct (e_after (mv_eff mv)) as [p'|] eqn:Ea.
+  - apply lookup_insert_Some in H as [[<- <-]|[Hne H]]; [left; cbn; eauto|right; auto].
+  - apply lookup_delete_Some in H as [Hne H]. right; auto.
+Qed.
+
+Lemma chans_apply_move_Some c mv k :
+  (forall k', k' ∈ put_chan (mv_put mv) -> is_Some (chans c !! k')) ->
+  is_Some (chans (apply_move c mv) !! k) -> k ∈ e_newch (mv_eff mv) \/ is_Some (chans c !! k).
+Proof.
+  intros Hput. rewrite chans_apply_move. unfold chan_upd.
+  destruct (decide (k ∈ e_newch (mv_eff mv))); [auto|]. intros H. right.
+  assert (H' : is_Some (match mv_put mv with Some (k', st) => if decide (k = k') then Some st else chans c !! k | None => chans c !! k end)).
+  { destruct (decide (k ∈ e_close (mv_eff mv))); [|done]. by apply fmap_is_Some in H. }
+  destruct (mv_put mv) as [[k' st]|]; [|done].
+  destruct (decide (k = k')) as [->|]; [|done]. apply Hput. cbn. set_solver.
+Qed.
+
+(* ------------------------------------------------------------------ namespace hygiene *)
+(* no identifier in use lies in the part of p's namespace that p has not handed out yet *)
+Definition older (p : pid) (N : nat) (k : list nat) : Prop := forall n rest, k = p ++ n :: rest -> (n < N)%nat.
+
+Definition ns_ok (c : config) : Prop :=
+  forall p pp, procs c !! p = Some pp ->
+    (forall q, is_Some (procs c !! q) -> older p (pr_next pp) q) /\
+    (forall k, is_Some (chans c !! k) -> older p (pr_next pp) k).
+
+Lemma older_mono p N N' k : older p N k -> (N <= N')%nat -> older p N' k.
+Proof. intros H ? n rest E. specialize (H n rest E). lia. Qed.
+Lemma older_self p N : older p N p.
+Proof. intros n rest E. apply (f_equal length) in E. rewrite app_length in E. cbn in E. lia. Qed.
+Lemma older_self_snoc p N m : (m < N)%nat -> older p N (p ++ [m]).
+Proof. intros ? n rest E. apply app_inv_head in E. injection E as -> _. done. Qed.
+Lemma snoc_eq_app_cons {A} (a r : list A) m n rest :
+  a ++ [m] = r ++ n :: rest -> (rest = [] /\ a = r /\ m = n) \/ exists rest', rest = rest' ++ [m] /\ a = r ++ n :: rest'.
+Proof.
+  destruct rest as [|x rest0 _] using rev_ind.
+  - intros E. left. apply app_inj_tail in E as [-> ->]. auto.
+  - intros E. right. exists rest0. rewrite app_comm_cons, app_assoc in E. apply app_inj_tail in E as [-> ->]. auto.
+Qed.
+Lemma older_snoc r N a m : r ≠ a -> older r N a -> older r N (a ++ [m]).
+Proof.
+  intros Hne H n rest E. apply snoc_eq_app_cons in E as [(_ & -> & _)|(rest' & -> & E)]; [done|]. by eapply H.
+Qed.
+Lemma older_child_parent a m N : older (a ++ [m]) N a.
+Proof. intros n rest E. apply (f_equal length) in E. rewrite !app_length in E. cbn in E. lia. Qed.
+Lemma older_child_sibling a m m' N : older (a ++ [m]) N (a ++ [m']).
+Proof. intros n rest E. rewrite <- app_assoc in E. apply app_inv_head in E. cbn in E. by injection E. Qed.
+Lemma older_child_old a M m x : older a M x -> (M <= m)%nat -> older (a ++ [m]) 0 x.
+Proof. intros H Hle n rest E. rewrite <- app_assoc in E. cbn in E. specialize (H _ _ E). lia. Qed.
+
+Lemma eff_base_ge self p e : eff_wf self p e -> (pr_next p <= eff_base p e)%nat.
+Proof. intros Hwf. unfold eff_base. destruct (e_after e) eqn:E; [by apply (ewf_next _ _ _ Hwf)|lia]. Qed.
+
+Lemma ns_ok_apply_move md D c ch mv : ns_ok c -> move_wf md D c ch mv -> ns_ok (apply_move c mv).
+Proof.
+  intros Hns Hwf.
+  pose proof (mwf_self _ _ _ _ _ Hwf) as Hself. pose proof (mwf_eff _ _ _ _ _ Hwf) as Hewf.
+  pose proof (eff_base_ge _ _ _ Hewf) as Hbase.
+  destruct (Hns _ _ Hself) as [Hsp Hsc].
+  set (self := mv_self mv) in *. set (pp := mv_proc mv) in *. set (e := mv_eff mv) in *.
+  assert (Hputs : forall k', k' ∈ put_chan (mv_put mv) -> is_Some (chans c !! k')).
+  { intros k' Hk'. apply (mwf_reads _ _ _ _ _ Hwf), (mwf_put _ _ _ _ _ Hwf), Hk'. }
+  (* every identifier in use after the move, seen from an arbitrary (r, N) *)
+  assert (Hall : forall r N,
+     older r N self -> (forall m, (eff_next0 pp e <= m < eff_next1 pp e)%nat -> older r N (self ++ [m])) ->
+     (forall k, k ∈ e_newch e -> older r N k) ->
+     (forall q, is_Some (procs c !! q) -> older r N q) -> (forall k, is_Some (chans c !! k) -> older r N k) ->
+     (forall q, is_Some (procs (apply_move c mv) !! q) -> older r N q) /\
+     (forall k, is_Some (chans (apply_move c mv) !! k) -> older r N k)).
+  { intros r N H1 H2 H3 H4 H5. split.
+    - intros q [qq Hq]. apply procs_apply_move_Some in Hq as [(-> & _)|[(m & -> & Hm & _)|(_ & _ & Hq)]]; eauto.
+    - intros k Hk. apply chans_apply_move_Some in Hk as [Hk|Hk]; eauto. }
+  intros r rr Hr. apply procs_apply_move_Some in Hr as [(-> & (p' & Ea) & HN)|[(m & -> & Hm & HN)|(Hne & _ & Hr)]].
+  - (* the acting process itself *)
+    rewrite HN. apply Hall; subst self pp e.
+    + apply older_self.
+    + intros m Hm. apply older_self_snoc. lia.
+    + intros k Hk. destruct (ewf_newch _ _ _ Hewf k Hk) as (n & -> & _ & Hn). specialize (Hn _ Ea).
+      apply older_self_snoc. unfold eff_next1, eff_next0, eff_base. rewrite Ea. lia.
+    + intros q Hq. eapply older_mono; [by apply Hsp|]. unfold eff_next1, eff_next0. lia.
+    + intros k Hk. eapply older_mono; [by apply Hsc|]. unfold eff_next1, eff_next0. lia.
+  - (* a spawned process *)
+    rewrite HN. apply Hall; subst self pp e.
+    + apply older_child_parent.
+    + intros m' _. apply older_child_sibling.
+    + intros k Hk. destruct (ewf_newch _ _ _ Hewf k Hk) as (n & -> & _). apply older_child_sibling.
+    + intros q Hq. eapply older_child_old; [by apply Hsp|]. unfold eff_next0 in Hm. lia.
+    + intros k Hk. eapply older_child_old; [by apply Hsc|]. unfold eff_next0 in Hm. lia.
+  - (* a bystander *)
+    destruct (Hns _ _ Hr) as [Hrp Hrc]. apply Hall; subst self pp e.
+    + apply Hrp. by eexists.
+    + intros m _. apply older_snoc; [done|]. apply Hrp. by eexists.
+    + intros k Hk. destruct (ewf_newch _ _ _ Hewf k Hk) as (n & -> & _). apply older_snoc; [done|].
+      apply Hrp. by eexists.
+    + done.
+    + done.
+Qed.
+
+Lemma ns_ok_step md D F c ch c' : ns_ok c -> step md D F c ch = SStep c' -> ns_ok c'.
+Proof.
+  intros Hns. rewrite step_move. destruct (move_of md D F c ch) as [| |mv] eqn:E; try discriminate.
+  intros [= <-]. eapply ns_ok_apply_move; [done|]. by eapply move_of_wf.
+Qed.
+
+(* ------------------------------------------------------------------ the initial configuration *)
+Lemma fold_left_inv {A B} (P : A -> Prop) (f : A -> B -> A) (l : list B) (a : A) :
+  P a -> (forall a x, x ∈ l -> P a -> P (f a x)) -> P (fold_left f l a).
+Proof.
+  revert a. induction l as [|x l IH]; intros a Ha Hf; cbn; [done|].
+  apply IH; [apply Hf; [left|done]|]. intros a' y Hy. apply Hf. by right.
+Qed.
+
+Lemma combine_lookup {A B} (l : list A) (k : list B) i a b :
+  combine l k !! i = Some (a, b) -> l !! i = Some a /\ k !! i = Some b.
+Proof.
+  revert k i. induction l as [|x l IH]; intros [|y k] [|i]; cbn; try discriminate.
+  - by intros [= -> ->].
+  - apply IH.
+Qed.
+
+Lemma init_provs_elem i provs old new :
+  (old, new) ∈ init_provs i provs -> exists j, (j < length provs)%nat /\ chan new = Some [i; j].
+Proof.
+  unfold init_provs. intros H. apply elem_of_lookup_imap in H as (j & o & [= -> ->] & Hj).
+  exists j. split; [by eapply lookup_lt_Some|done].
+Qed.
+
+Lemma init_config_procs p q pp :
+  procs (init_config p) !! q = Some pp ->
+  exists i pr, q = [i] /\ p_procs p !! i = Some pr /\ pr_next pp = length (pr_providers pr).
+Proof.
+  unfold init_config. cbn [procs]. revert q pp.
+  match goal with |- forall q pp, fold_left ?f ?l ?a !! q = Some pp -> _ =>
+    apply (fold_left_inv (fun m : gmap pid proc => forall q pp, m !! q = Some pp ->
+             exists i pr, q = [i] /\ p_procs p !! i = Some pr /\ pr_next pp = length (pr_providers pr)) f l a) end.
+  - intros q pp. rewrite lookup_empty. discriminate.
+  - intros m x Hx IH q pp. apply elem_of_lookup_imap in Hx as (i & [pr ini] & -> & Hi).
+    apply combine_lookup in Hi as [Hpr Hini]. rewrite list_lookup_imap, Hpr in Hini. cbn in Hini.
+    injection Hini as <-. intros H. apply lookup_insert_Some in H as [[<- <-]|[_ H]]; [|by apply IH].
+    exists i, pr. split; [done|]. split; [done|]. cbn. unfold init_provs. by rewrite imap_length.
+Qed.
+
+Lemma init_config_chans p k :
+  is_Some (chans (init_config p) !! k) ->
+  exists i j pr, k = [i; j] /\ p_procs p !! i = Some pr /\ (j < length (pr_providers pr))%nat.
+Proof.
+  unfold init_config. cbn [chans]. revert k.
+  match goal with |- forall k, is_Some (fold_left ?f ?l ?a !! k) -> _ =>
+    apply (fold_left_inv (fun m : gmap cid chan_st => forall k, is_Some (m !! k) ->
+             exists i j pr, k = [i; j] /\ p_procs p !! i = Some pr /\ (j < length (pr_providers pr))%nat) f l a) end.
+  - intros k. rewrite lookup_empty. by intros [? ?].
+  - intros m [old new] Hx IH k. apply elem_of_list_In, in_concat in Hx as (ini & Hini & Hx).
+    apply elem_of_list_In in Hini. apply elem_of_list_In in Hx.
+    apply elem_of_lookup_imap in Hini as (i & pr & -> & Hpr).
+    apply init_provs_elem in Hx as (j & Hj & Hc). rewrite Hc.
+    intros H. apply lookup_insert_is_Some in H as [<-|[_ H]]; [|by apply IH]. eauto 6.
+Qed.
+
+Lemma ns_ok_init p : ns_ok (init_config p).
+Proof.
+  intros q pp Hq. apply init_config_procs in Hq as (i & pr & -> & Hpr & HN). split.
+  - intros q' [pp' Hq']. apply init_config_procs in Hq' as (i' & pr' & -> & _).
+    intros n rest E. apply (f_equal length) in E. cbn in E. lia.
+  - intros k Hk. apply init_config_chans in Hk as (i' & j & pr' & -> & Hpr' & Hj).
+    intros n rest E. cbn in E. injection E as -> -> _. rewrite Hpr in Hpr'. injection Hpr' as <-. lia.
+Qed.
